@@ -1,4 +1,5 @@
 import Crv.Ocsp
+import Crv.Proofs.Skeleton
 import Crv.Generated.Ocsp
 import Crv.Proofs.OcspDecide
 /-!
@@ -263,5 +264,10 @@ example : parseOcsp ocspFacts Vx certX [ca] (.resp { base with respStatus := 3 }
 -- other serial only
 example : parseOcsp ocspFacts Vx certX [ca] (.resp { base with singles := [{ single77 with serial := 78 }] }) = none := by decide
 end Example
+
+/-- The hand-written `Ocsp` model this property rests on was transcribed from exactly these sources: the fingerprints are
+recomputed from /repo on every run (tools/extract/skeleton.go), so any change to one of the functions breaks this obligation. -/
+theorem ocsp_sources_as_transcribed : Crv.Generated.skeletonOcsp = Crv.Skeleton.expectedOcsp :=
+  Crv.Skeleton.ocsp_sources_as_transcribed
 
 end Crv.Props.C05
